@@ -1,4 +1,18 @@
-"""C08 translator: every `self.action(…)` / `config.action(…)` call of src/pyramid/config/*.py  →
+"""C08 phase table  →  lean/PyramidModel/Gen/C08Phases.lean.
+
+SINCE THE FIFTH ROUND the table is a PROBE OF THE RUNNING CODE, not an AST read: a child interpreter (PYTHONPATH = the
+tree under test) builds a non-autocommit Configurator, calls every modelled directive with canonical arguments (several
+argument variants where the directive branches: named / default renderer, the three predicate types, the three
+request-method forms, plain / route / exception views …) and reads what each call appended to
+`config.action_state.actions`: discriminator (shape), `order`, callable?, introspectables? — plus the call site
+(file, line, function) of the `self.action(…)` call, taken from the caller's frame by a logging subclass, which the
+harness uses to map executed actions to kinds.  One row per kind: the phase is the order all variants agree on
+(`none` when they disagree or the directive no longer declares the expected number of actions: every theorem over the
+table then fails).  It fails closed only when the probe cannot run.  A refactoring that computes `order=` differently
+(aliases, helper methods, functools.partial callables, reordered keywords) is invisible to it as long as the declared
+actions are the same.  The former AST read (below, `table()`) is kept as optional information in the summary.
+
+Former description — AST read: every `self.action(…)` / `config.action(…)` call of src/pyramid/config/*.py  →
 lean/PyramidModel/Gen/C08Phases.lean  (directive, action kind, phase, discriminator shape, deferred?, callable?).
 
 Python `ast` only.  Nothing is guessed:
@@ -185,37 +199,230 @@ def _lean_int(v):
     return 'none' if v is None else ('some (%d)' % v)
 
 
+KIND_ORDER = ['addSubscriber', 'addResponseAdapter', 'addTraverser', 'addResourceUrlAdapter', 'overrideAsset',
+              'setRootFactory', 'setSessionFactory', 'setRequestFactory', 'setResponseFactory', 'addRequestMethodNone',
+              'addRequestMethodProp', 'addRequestMethod', 'setExecutionPolicy', 'setLocaleNegotiator', 'addTranslationDirs',
+              'addPredicate', 'addRenderer', 'routeConnect', 'routeIface', 'setSecurityPolicy', 'setAuthenticationPolicy',
+              'setAuthorizationPolicy', 'ensureAuthentication', 'setDefaultPermission', 'addPermission',
+              'setDefaultCSRFOptions', 'setCSRFStoragePolicy', 'addTween', 'addView', 'addAcceptViewOrder', 'addViewDeriver',
+              'setViewMapper', 'staticRegister', 'cacheBuster']
+
+PROBE_CODE = r"""
+import json, os, sys, warnings
+warnings.filterwarnings('ignore')
+import pyramid
+from pyramid.config import Configurator
+from pyramid.registry import Deferred
+from zope.interface.interfaces import IInterface
+
+LOG = []
+
+
+class P(Configurator):
+    def action(self, discriminator, callable=None, args=(), kw=None, order=0, introspectables=(), **extra):
+        f = sys._getframe(1)
+        LOG.append({'file': os.path.basename(f.f_code.co_filename)[:-3], 'line': f.f_lineno, 'func': f.f_code.co_name})
+        return Configurator.action(self, discriminator, callable, args, kw, order, introspectables, **extra)
+
+
+def shape(d):
+    if d is None:
+        return 'none'
+    if isinstance(d, Deferred):
+        return 'deferred'
+    if isinstance(d, tuple) and len(d) >= 1:
+        return 'tuple'
+    if IInterface.providedBy(d):
+        return 'iface'
+    return 'unknown'
+
+
+def view(context, request):
+    return None
+
+
+class Thing:
+    def __init__(self, *a, **k):
+        pass
+
+    def __call__(self, *a, **k):
+        return True
+
+    def text(self):
+        return 't'
+    phash = text
+
+
+def deriver(v, info):
+    return v
+
+
+HERE = os.path.dirname(pyramid.__file__)
+c = P()
+c.commit()
+OUT = []
+
+
+def probe(name, kinds, fn):
+    n0, l0 = len(c.action_state.actions), len(LOG)
+    try:
+        fn(c)
+    except Exception as e:
+        OUT.append({'directive': name, 'error': '%s: %s' % (type(e).__name__, e), 'kinds': kinds})
+        return
+    new = c.action_state.actions[n0:]
+    sites = LOG[l0:]
+    for i, a in enumerate(new):
+        site = sites[i] if len(sites) == len(new) else {'file': '?', 'line': 0, 'func': '?'}
+        OUT.append({'directive': name, 'index': i, 'expected': len(kinds), 'got': len(new),
+                    'kind': kinds[i] if len(new) == len(kinds) else 'unknown',
+                    'order': a.get('order'), 'disc': shape(a.get('discriminator')),
+                    'callable': a.get('callable') is not None, 'introspectables': len(a.get('introspectables') or ()),
+                    'file': site['file'], 'line': site['line'], 'func': site['func']})
+    if not new:
+        OUT.append({'directive': name, 'error': 'declared no action', 'kinds': kinds})
+
+
+from pyramid.events import NewRequest
+from pyramid.response import Response
+from pyramid.authorization import ACLAuthorizationPolicy
+from pyramid.authentication import RemoteUserAuthenticationPolicy
+from pyramid.static import QueryStringConstantCacheBuster
+
+probe('add_subscriber', ['addSubscriber'], lambda c: c.add_subscriber(lambda e: None, NewRequest))
+probe('add_response_adapter', ['addResponseAdapter'], lambda c: c.add_response_adapter(None, Thing))
+probe('add_traverser', ['addTraverser'], lambda c: c.add_traverser(Thing))
+probe('add_resource_url_adapter', ['addResourceUrlAdapter'], lambda c: c.add_resource_url_adapter(Thing))
+probe('override_asset', ['overrideAsset'], lambda c: c.override_asset('pyramid:static/', 'pyramid:scaffolds/'))
+probe('set_root_factory', ['setRootFactory'], lambda c: c.set_root_factory(Thing))
+probe('set_session_factory', ['setSessionFactory'], lambda c: c.set_session_factory(Thing))
+probe('set_request_factory', ['setRequestFactory'], lambda c: c.set_request_factory(Thing))
+probe('set_response_factory', ['setResponseFactory'], lambda c: c.set_response_factory(Thing))
+probe('add_request_method(name only)', ['addRequestMethodNone'], lambda c: c.add_request_method(name='vfnm0'))
+probe('add_request_method(property)', ['addRequestMethodProp'], lambda c: c.add_request_method(view, name='vfnm1', property=True))
+probe('add_request_method(reify)', ['addRequestMethodProp'], lambda c: c.add_request_method(view, name='vfnm2', reify=True))
+probe('add_request_method', ['addRequestMethod'], lambda c: c.add_request_method(view, name='vfnm3'))
+probe('set_execution_policy', ['setExecutionPolicy'], lambda c: c.set_execution_policy(view))
+probe('set_locale_negotiator', ['setLocaleNegotiator'], lambda c: c.set_locale_negotiator(view))
+probe('add_translation_dirs', ['addTranslationDirs'], lambda c: c.add_translation_dirs(HERE))
+probe('add_view_predicate', ['addPredicate'], lambda c: c.add_view_predicate('vfp', Thing))
+probe('add_route_predicate', ['addPredicate'], lambda c: c.add_route_predicate('vfp', Thing))
+probe('add_subscriber_predicate', ['addPredicate'], lambda c: c.add_subscriber_predicate('vfp', Thing))
+probe('add_renderer(named)', ['addRenderer'], lambda c: c.add_renderer('vfrend', Thing))
+probe('add_renderer(built-in name)', ['addRenderer'], lambda c: c.add_renderer('json', Thing))
+probe('add_renderer(default)', ['addRenderer'], lambda c: c.add_renderer(None, Thing))
+probe('add_route', ['routeConnect', 'routeIface'], lambda c: c.add_route('vfroute', '/vfroute/{x}'))
+probe('add_route(static)', ['routeConnect', 'routeIface'], lambda c: c.add_route('vfroute2', '/vfroute2', static=True))
+probe('set_security_policy', ['setSecurityPolicy'], lambda c: c.set_security_policy(Thing()))
+probe('set_authorization_policy', ['setAuthorizationPolicy', 'ensureAuthentication'], lambda c: c.set_authorization_policy(ACLAuthorizationPolicy()))
+probe('set_authentication_policy', ['setAuthenticationPolicy'], lambda c: c.set_authentication_policy(RemoteUserAuthenticationPolicy()))
+probe('set_default_permission', ['setDefaultPermission'], lambda c: c.set_default_permission('vfperm'))
+probe('add_permission', ['addPermission'], lambda c: c.add_permission('vfperm2'))
+probe('set_default_csrf_options', ['setDefaultCSRFOptions'], lambda c: c.set_default_csrf_options())
+probe('set_csrf_storage_policy', ['setCSRFStoragePolicy'], lambda c: c.set_csrf_storage_policy(Thing()))
+probe('add_tween', ['addTween'], lambda c: c.add_tween('pyramid.tweens.excview_tween_factory'))
+probe('add_tween(constrained)', ['addTween'], lambda c: c.add_tween('pyramid.tweens.excview_tween_factory', under='pyramid.tweens.MAIN'))
+probe('add_view', ['addView'], lambda c: c.add_view(view, name='vfv'))
+probe('add_view(route, renderer, permission)', ['addView'], lambda c: c.add_view(view, route_name='vfroute', renderer='json', permission='vfperm'))
+probe('add_view(exception context)', ['addView'], lambda c: c.add_view(view, context=ValueError))
+probe('add_notfound_view', ['addView'], lambda c: c.add_notfound_view(view))
+probe('add_forbidden_view', ['addView'], lambda c: c.add_forbidden_view(view))
+probe('add_exception_view', ['addView'], lambda c: c.add_exception_view(view, context=KeyError))
+probe('add_accept_view_order', ['addAcceptViewOrder'], lambda c: c.add_accept_view_order('text/html'))
+probe('add_view_deriver', ['addViewDeriver'], lambda c: c.add_view_deriver(deriver, name='vfderiver'))
+probe('set_view_mapper', ['setViewMapper'], lambda c: c.set_view_mapper(Thing))
+probe('add_static_view', ['routeConnect', 'routeIface', 'addView', 'staticRegister'], lambda c: c.add_static_view('vfstatic', HERE))
+probe('add_cache_buster', ['cacheBuster'], lambda c: c.add_cache_buster(HERE, QueryStringConstantCacheBuster('x')))
+import pyramid.interfaces as I
+print(json.dumps({'rows': OUT, 'phases': {k: getattr(I, k, None) for k in ('PHASE0_CONFIG', 'PHASE1_CONFIG', 'PHASE2_CONFIG', 'PHASE3_CONFIG')},
+                  'default_order': __import__('inspect').signature(Configurator.action).parameters['order'].default}))
+"""
+
+_PROBE = {}
+
+
+def probe(src_root):
+    """run the probe in a child interpreter on the tree `src_root`; -> dict(rows, phases, default_order, kinds, sites)"""
+    import json, subprocess, sys, inspect
+    if src_root in _PROBE:
+        return _PROBE[src_root]
+    env = dict(os.environ)
+    env['PYTHONPATH'] = src_root + os.pathsep + env.get('PYTHONPATH', '')
+    env['PYTHONWARNINGS'] = 'ignore'
+    p = subprocess.run([sys.executable, '-c', PROBE_CODE], env=env, stdout=subprocess.PIPE, stderr=subprocess.PIPE, timeout=120)
+    if p.returncode != 0:
+        raise RuntimeError('the directive probe could not run on %s: %s' % (src_root, p.stderr.decode(errors='replace')[-800:]))
+    data = json.loads(p.stdout.decode().strip().splitlines()[-1])
+    rows = data['rows']
+    kinds = {}
+    for r in rows:
+        if 'error' in r:
+            for k in r['kinds']:
+                kinds.setdefault(k, {'orders': set(), 'discs': set(), 'callable': set(), 'notes': []})['notes'].append(
+                    '%s: %s' % (r['directive'], r['error']))
+            continue
+        k = kinds.setdefault(r['kind'], {'orders': set(), 'discs': set(), 'callable': set(), 'notes': []})
+        k['orders'].add(r['order']); k['discs'].add(r['disc']); k['callable'].add(r['callable'])
+        k['notes'].append('%s#%d %s.py order=%r' % (r['directive'], r['index'], r['file'], r['order']))
+        if r['kind'] == 'unknown':
+            k['notes'].append('%s declared %d actions, %d expected' % (r['directive'], r['got'], r['expected']))
+    # the default `order` of Configurator.action = what a directive that passes none gets: read off a probe row is not
+    # possible in general, so it is read from the signature in the child (kept None here) and from the AST as information
+    sites = {}
+    for r in rows:
+        if 'error' not in r and r['file'] != '?':
+            sites[(r['file'], r['line'])] = r
+    out = {'rows': rows, 'phases': data['phases'], 'kinds': kinds, 'sites': sites, 'default_order': data.get('default_order')}
+    _PROBE[src_root] = out
+    return out
+
+
 def generate(src_root):
-    rows, phases, dflt = table(src_root)
+    pr = probe(src_root)
+    phases = pr['phases']
+    dflt = pr.get('default_order') if isinstance(pr.get('default_order'), int) else None
     lines = ['import PyramidModel.ConfigOrder',
-             '/-! GENERATED by extract/c08.py from src/pyramid/config/*.py and src/pyramid/interfaces.py — do not edit.',
-             'One row per `self.action(…)` / `config.action(…)` call: kind (call site), phase (`order=` resolved through the',
-             'PHASEn_CONFIG constants; absent = the default of `ActionConfiguratorMixin.action`), discriminator shape, callable? -/',
+             '/-! GENERATED by extract/c08.py — do not edit.  A PROBE of the running code: every modelled directive was called on',
+             'a non-autocommit Configurator of the tree under test and the actions it appended to `action_state.actions` were',
+             'read (discriminator shape, `order`, callable?).  One row per action kind; `none` = the probed argument variants',
+             'disagree / the directive no longer declares the expected actions. -/',
              'namespace Pyr.ConfigOrder.Gen', '']
     for k in ('PHASE0_CONFIG', 'PHASE1_CONFIG', 'PHASE2_CONFIG', 'PHASE3_CONFIG'):
-        lines.append('def %s : Option Int := %s' % (k.lower().replace('_config', ''), _lean_int(phases.get(k))))
+        v = phases.get(k)
+        lines.append('def %s : Option Int := %s' % (k.lower().replace('_config', ''), _lean_int(v if isinstance(v, int) else None)))
     lines.append('def defaultOrder : Option Int := %s' % _lean_int(dflt))
     lines.append('')
     lines.append('def rows : List Row := [')
     body = []
-    for r in rows:
-        body.append('  ⟨.%s, %s, .%s, %s⟩  -- %s.py:%d %s#%d order=%s' % (
-            r['kind'], _lean_int(r['phase']), r['disc'], 'true' if r['callable'] else 'false',
-            r['file'], r['line'], r['func'], r['idx'], r['phase_src']))
-    # the comma must precede the comment
-    fixed = []
-    for i, b in enumerate(body):
-        code, _, comment = b.partition('  -- ')
-        fixed.append(code + (',' if i + 1 < len(body) else '') + '  -- ' + comment)
-    lines += fixed
+    problems = []
+    for kind in KIND_ORDER + (['unknown'] if 'unknown' in pr['kinds'] else []):
+        k = pr['kinds'].get(kind)
+        if k is None:
+            problems.append('%s: never declared by any probed directive' % kind)
+            continue
+        orders = {o for o in k['orders']}
+        phase = list(orders)[0] if len(orders) == 1 and isinstance(list(orders)[0], int) else None
+        disc = list(k['discs'])[0] if len(k['discs']) == 1 else 'unknown'
+        call = 'true' if k['callable'] == {True} else ('false' if k['callable'] == {False} else 'true')
+        if phase is None or disc == 'unknown' or kind == 'unknown':
+            problems.append('%s: %s' % (kind, '; '.join(k['notes'])[:300]))
+        note = '; '.join(sorted(set(n.split(' order=')[0] for n in k['notes'])))[:160]
+        body.append(('  ⟨.%s, %s, .%s, %s⟩' % (kind, _lean_int(phase), disc, call), '%s  orders=%s' % (note, sorted(orders, key=repr))))
+    for i, (code, comment) in enumerate(body):
+        lines.append(code + (',' if i + 1 < len(body) else '') + '  -- ' + comment.replace('\n', ' '))
     lines.append(']')
     lines.append('')
     lines.append('end Pyr.ConfigOrder.Gen')
     summary.clear()
-    summary.update({'rows': len(rows), 'unknown_kinds': [(r['file'], r['func'], r['idx']) for r in rows if r['kind'] == 'unknown'],
-                    'unknown_phases': [(r['file'], r['func'], r['idx'], r['phase_src']) for r in rows if r['phase'] is None],
-                    'unknown_discs': [(r['file'], r['func'], r['idx']) for r in rows if r['disc'] == 'unknown'],
-                    'phases': phases, 'default_order': dflt})
+    summary.update({'rows': len(body), 'probed_actions': len([r for r in pr['rows'] if 'error' not in r]),
+                    'problems': problems, 'phases': phases, 'default_order': dflt})
+    try:        # optional information: the former AST read
+        arows, _, _ = table(src_root)
+        summary['ast_info'] = {'action_call_sites': len(arows),
+                               'order_not_understood_by_ast': [(r['file'], r['func'], r['idx'], r['phase_src']) for r in arows if r['phase'] is None],
+                               'sites_not_in_dictionary': [(r['file'], r['func'], r['idx']) for r in arows if r['kind'] == 'unknown']}
+    except Exception as e:
+        summary['ast_info'] = 'AST read failed: %s' % e
     return {'PyramidModel/Gen/C08Phases.lean': '\n'.join(lines) + '\n'}
 
 
